@@ -5,6 +5,7 @@ import (
 	"encoding/hex"
 	"fmt"
 	"math/rand"
+	"sort"
 	"strings"
 
 	"github.com/golang/protobuf/proto"
@@ -394,6 +395,32 @@ func genLookup(t *Tracer, m *Meta, prop, tier string, seed int64) {
 		}
 		m.class("family:" + fam)
 	}
+	// (2a) 257-bit nodes whose label bitmap looks like a 17-bit one: only labels among
+	// end-of-key and bytes 0x00..0x0f next to bytes >= 0x3f (mimic), or -- with
+	// de-duplication -- a 257-bit node that keeps the end-of-key label only because all its
+	// extensions carry the value of the key that ends there (dedupbig); with enough equal
+	// 17-bit nodes below for a short table
+	nSpecial := 6
+	if !quick {
+		nSpecial = 60
+	}
+	for i := 0; i < nSpecial; i++ {
+		var c *TrieCase
+		enc := []string{"i32", "i64", "i16", "s16"}[r.Intn(4)]
+		if i%2 == 0 {
+			c = bigMimicCase(r, enc)
+		} else {
+			c = dedupBigCase(r, enc)
+		}
+		for _, o4 := range pickOpts(r, prop, 2) {
+			if i%2 == 1 {
+				o4[0] = 1 // de-duplication on
+			}
+			c2 := &TrieCase{Keys: c.Keys, Enc: c.Enc, Vals: c.Vals, Opt4: o4}
+			runLookupCase(t, m, r, c2, lookupOpts{qlimit: 250, table: true, loaded: true, keysObs: true, mcheck: prop == "C05"})
+		}
+		m.class([]string{"special:bigmimic", "special:dedupbig"}[i%2])
+	}
 	// (2b) boundary-seeking shapes: counts exactly on 64/128-bit word boundaries
 	nB := 39
 	if !quick {
@@ -429,4 +456,71 @@ func genLookup(t *Tracer, m *Meta, prop, tier string, seed int64) {
 			runLookupCase(t, m, r, c, lookupOpts{qlimit: 40, table: true, loaded: true, keysObs: true, mcheck: prop == "C05"})
 		}
 	}
+}
+
+// bigMimicCase: the root is a 257-bit node whose children are a few bytes 0x00..0x0f and
+// >= 10 bytes >= 0x40; below the high bytes many 17-bit nodes branch on exactly the
+// half-bytes that the low root bytes name, so that this bitmap is popular (short table)
+// and equals the first word of the root's bitmap.
+func bigMimicCase(r *rand.Rand, enc string) *TrieCase {
+	nS := 1 + r.Intn(3)
+	S := r.Perm(15)[:nS] // half-byte values; as root BYTES they are 0x00..0x0e
+	keys := []string{}
+	for _, s := range S {
+		keys = append(keys, string([]byte{byte(s)})+randBytes(r, r.Intn(2), []byte{0x41, 0x42}))
+	}
+	nHigh := 11 + r.Intn(20)
+	for h := 0; h < nHigh; h++ {
+		hb := byte(0x40 + h*3)
+		for _, s := range S {
+			// second byte: high half-byte in S -> the node below hb branches on S
+			keys = append(keys, string([]byte{hb, byte(s)<<4 | byte(r.Intn(16))}))
+			if r.Intn(3) == 0 {
+				keys = append(keys, string([]byte{hb, byte(s)<<4 | byte(r.Intn(16)), byte(r.Intn(256))}))
+			}
+		}
+	}
+	keys = uniq(keys)
+	c := &TrieCase{Keys: keys, Enc: enc}
+	c.Vals = valsFromPattern(enc, len(keys), 0, int64(r.Intn(100)))
+	return c
+}
+
+// dedupBigCase: groups K_g, K_g+b1, ..., K_g+bm with ONE value per group: with
+// de-duplication only K_g is retained, the node at K_g sees m distinct next bytes (257-bit
+// while the creator's latch is open) but keeps the end-of-key label only.  One small group
+// closes the latch; the later groups give equal 17-bit nodes.
+func dedupBigCase(r *rand.Rand, enc string) *TrieCase {
+	nG := 14 + r.Intn(30)
+	small := 2 + r.Intn(5)
+	keys := []string{}
+	groupOf := []int{}
+	for g := 0; g < nG; g++ {
+		K := string([]byte{byte(0x20 + g*4)}) + randBytes(r, r.Intn(2), []byte{0x61})
+		m := 11 + r.Intn(8)
+		if g == small {
+			m = 2 + r.Intn(4)
+		}
+		keys = append(keys, K)
+		groupOf = append(groupOf, g)
+		for _, b := range r.Perm(200)[:m] {
+			keys = append(keys, K+string([]byte{byte(b + 20)}))
+			groupOf = append(groupOf, g)
+		}
+	}
+	// sort keys together with their groups
+	idx := make([]int, len(keys))
+	for i := range idx {
+		idx[i] = i
+	}
+	sort.Slice(idx, func(a, b int) bool { return keys[idx[a]] < keys[idx[b]] })
+	ks, vs := []string{}, [][]byte{}
+	for _, i := range idx {
+		if len(ks) > 0 && ks[len(ks)-1] == keys[i] {
+			continue
+		}
+		ks = append(ks, keys[i])
+		vs = append(vs, encodeVal(enc, int64(groupOf[i]+1)))
+	}
+	return &TrieCase{Keys: ks, Enc: enc, Vals: vs}
 }
